@@ -44,7 +44,7 @@ class Lock:
 
 
 # ----------------------------------------------------------------------------- proof obligations
-def coq_obligations(pid):
+def coq_obligations(pid, tier="quick"):
     """Builds Properties/<pid>.vo (and its cone), re-runs coqc on the property file to capture
     `Print Assumptions`, scans the cone for forbidden vernacular.  Returns a dict."""
     t0 = time.time()
@@ -106,6 +106,18 @@ def coq_obligations(pid):
                     hits.append("%s: %s" % (os.path.relpath(os.path.join(root, f), COQ_DIR), m.group(0)))
     if hits:
         res["failed"].append("forbidden vernacular: " + "; ".join(hits[:10]))
+    if tier == "thorough":
+        # independent re-check of the compiled property file and everything it depends on
+        res["obligations"] += 1
+        rc, out, err = run_cmd(["timeout", "3000", "coqchk", "-silent", "-o", "-Q", ".", "BddVerif", "BddVerif.Properties.%s" % pid], cwd=COQ_DIR, timeout=3100)
+        txt = out + err
+        m = re.search(r"\* Axioms:\s*(.*?)\n\s*\n", txt + "\n\n", flags=re.S)
+        axioms = m.group(1).strip() if m else "?"
+        res["coqchk"] = {"exit": rc, "axioms": axioms}
+        if rc != 0 or axioms != "<none>":
+            bad = [a for a in re.findall(r"^\s*([A-Za-z_][\w.']*)\s*$", axioms, flags=re.M) if a not in ALLOWED_AXIOMS]
+            if rc != 0 or bad or axioms == "?":
+                res["failed"].append("coqchk: exit %s, axioms: %s" % (rc, axioms[:300]))
     res["discharged"] = res["obligations"] - (len(res["failed"]) if res["failed"] else 0)
     if not res["failed"]:
         res["discharged"] = res["obligations"]
